@@ -255,6 +255,8 @@ def run_obligation(ctx, unit, ob, cfg, tier, canary=False, want_trace=False, cov
     res = {'unit': unit['unit'], 'ob': ob['id'], 'config': cfg,
            'class': 'B' if cfg in ob.get('bounded_configs', unit.get('bounded_configs', ())) else ob.get('class', 'U'),
            'mode': ob.get('mode', 'plain'), 'canary': canary, 'is_cover': cover, 'cmds': []}
+    if ob.get('kind') == 'census':
+        return run_census(ctx, unit, ob, cfg, res, canary)
     d = ctx.unit_dir(unit, cfg)
     tag = ob['id'] + ('.canary' if canary else '') + ('.cover' if cover else '') + ('.search' if search else '')
     spec = os.path.join(ROOT, unit['spec'])
@@ -358,6 +360,66 @@ def run_obligation(ctx, unit, ob, cfg, tier, canary=False, want_trace=False, cov
         res['wall_s'] = round(time.time() - t0, 2)
         return res
     res.update(status='undecided', reason='cbmc rc=%s: %s' % (rc, out[-1500:]))
+    return res
+
+
+def run_census(ctx, unit, ob, cfg, res, canary):
+    """C20 supporting static fact: every object with static storage duration declared under /repo/src is const/constexpr,
+    except allow-listed stateless singletons; plus a textual scan of every header (covers #if branches the TU does not compile)."""
+    import ajlower
+    t0 = time.time()
+    try:
+        path = ctx.ensure_ast(unit.get('tu', 'census'), cfg)
+    except Undecided as e:
+        res.update(status='undecided', reason=str(e))
+        return res
+    L = ajlower.Lowerer(ajlower.load_ast(path))
+    os.makedirs(ctx.unit_dir(unit, cfg), exist_ok=True)
+    allow = set(ob.get('allow', []))
+    if canary:
+        allow = set()
+    src = os.path.join(REPO, 'src')
+    items = L.static_census(src)
+    bad = []
+    for it in items:
+        if it['const']:
+            continue
+        if it['name'] in allow:
+            # allow-listed objects must stay stateless: a record without data members
+            t = None
+            try:
+                t = L.rtype_s(it['type'])
+            except Exception:
+                t = None
+            if t and t[0] == 'rec' and t[1] in L.records and L.record_fields(L.records[t[1]]):
+                bad.append(dict(it, why='allow-listed singleton now has data members'))
+            continue
+        bad.append(dict(it, why='mutable object with static storage duration'))
+    # textual scan of all headers, all preprocessor branches
+    rx = re.compile(r'^\s*(static|thread_local)\s+(?!const\b|constexpr\b|inline\b)[^(;]*(;|=[^(;]*;)')
+    allow_text = set(ob.get('allow_text', []))
+    nscan = 0
+    for dp, dn, fn in os.walk(src):
+        for f in fn:
+            if not f.endswith(('.hpp', '.h')):
+                continue
+            p = os.path.join(dp, f)
+            for i, line in enumerate(open(p, errors='replace'), 1):
+                nscan += 1
+                if rx.match(line) and ' const ' not in line:
+                    key = '%s:%s' % (os.path.relpath(p, REPO), line.strip())
+                    if key not in allow_text or canary:
+                        bad.append({'name': line.strip(), 'file': p, 'line': i, 'type': '', 'why': 'textual scan: static/thread_local declaration that is not const'})
+    res['properties'] = len(items) + 1
+    res['user_props'] = len(items) + 1
+    res['failed_props'] = [{'name': 'census.%s' % b['name'], 'line': str(b['line']), 'desc': '%s: %s (%s:%s)' % (b['why'], b['name'], b['file'], b['line']), 'res': 'FAILURE'} for b in bad]
+    res['sample_props'] = ['census: %s %s const=%s' % (i['name'], i['type'], i['const']) for i in items[:3]]
+    res['solver_s'] = round(time.time() - t0, 2)
+    res['backend'] = 'clang AST census + textual scan (%d declarations, %d source lines)' % (len(items), nscan)
+    res['cmds'].append('static_census(%s) over %s' % (src, path))
+    res['status'] = 'failed' if bad else 'proved'
+    if bad:
+        res['cbmc_tail'] = '\n'.join(p['desc'] for p in res['failed_props'])
     return res
 
 
@@ -487,7 +549,7 @@ def run_property(prop, tier, seed, jobs_n):
         if k in lowered:
             continue
         try:
-            lowered[k] = ctx.lower_unit(u, cfg)
+            lowered[k] = 'census' if u.get('kind') == 'census' else ctx.lower_unit(u, cfg)
         except Undecided as e:
             lowered[k] = None
             undecided.append({'unit': u['unit'], 'config': cfg, 'reason': str(e)})
@@ -593,7 +655,7 @@ def run_property(prop, tier, seed, jobs_n):
     n_dis = sum(r.get('properties', 0) - len(r.get('failed_props', [])) for r in results if r.get('class') != 'B' and r['status'] in ('proved', 'failed'))
     funcs = {}
     for (uname, cfg), d in lowered.items():
-        if d and os.path.exists(os.path.join(d, 'funcs.json')):
+        if d and d != 'census' and os.path.exists(os.path.join(d, 'funcs.json')):
             for cname, info in load_json(os.path.join(d, 'funcs.json')).items():
                 if info.get('has_body'):
                     funcs[cname] = '%s (%s:%s)' % (info['qname'], (info.get('file') or '').replace(REPO + '/', ''), info.get('line'))
